@@ -7,6 +7,7 @@ package main
 import (
 	"fmt"
 	"os"
+	"regexp"
 
 	"go/types"
 	"golang.org/x/tools/go/ssa"
@@ -298,7 +299,13 @@ func init() {
 		ID:       "C06",
 		Title:    "Clone is a complete, alias-free deep copy and the only legal way to reuse a node",
 		Packages: []string{pkgDst, pkgDecorator},
-		Build:    buildClone,
+		Build: func(p *Program, tier string) ([]*Unit, []UnitError) {
+			us, es := buildClone(p, tier)
+			us2, es2 := restoreUnitsOf(p, tier, false)
+			return append(us, us2...), append(es, es2...)
+		},
+		Select:   func(n string) bool { return strings.Contains(n, "Clone") || reDup.MatchString(n) },
+		Siblings: "C11 (maps), C12 (position space), C04 (tape) for the restoreNode units",
 		Assumptions: []string{
 			"cloneOf(out, n) is an uninterpreted relation introduced only by Clone's own postcondition; freshness of everything reachable from the result follows by induction on the tree",
 			"trees are acyclic (partial correctness: termination of the recursion is not proved)",
@@ -361,4 +368,98 @@ func (p *Program) consultedPaths(fnKey string, nt nodeType) map[string]bool {
 		}
 	}
 	return out
+}
+
+// ---- restoreNode per case ----
+
+func buildRestoreNode(p *Program, tier string, which string) ([]*Unit, []UnitError) {
+	key := fr("restoreNode")
+	var units []*Unit
+	var errs []UnitError
+	for _, nt := range p.nodeTypes(pkgDst) {
+		nt := nt
+		name := "restoreNode/" + nt.Name
+		if !wantUnit(name) {
+			continue
+		}
+		opts := restoreNodeOpts(p, nt)
+		u, err := p.verifyFunc(key, opts)
+		if err != nil {
+			errs = append(errs, UnitError{name, err.Error()})
+			continue
+		}
+		units = append(units, u)
+	}
+	return units, errs
+}
+
+// ---- label classes of the shared restorer units ----
+
+var (
+	rePosSpace = regexp.MustCompile(`#(ensures|join\d+\.\d+|loop\d+-(entry|preserve(\.\d+)?)):(foreach_)?(inv|cursor_monotone|lines_prefix|comments_prefix|count|backing|old_rows|frame_new)$|#call:.*:inv@\d+$|#pos:|#frame|#loop\d+-(entry|preserve(\.\d+)?):(count|length|cursor|offsets|prefix|at_newline|inv|sorted|pos|last|rest|lines_prefix|comments_prefix|cursor_monotone|comments|lines|untouched|index)$|#ensures:(added|cursor|offsets|prefix|at_newline|at_newline_kept|sorted|last|single_line_is_noop|covers_cursor|covers_lines|covers_comments|positive_or_empty|ends_at_newline|empty_is_noop)$`)
+	reMaps     = regexp.MustCompile(`#(ensures|join\d+\.\d+|loop\d+-(entry|preserve(\.\d+)?)):(foreach_)?(maps|mapped|mapped_back|mapped_self|ast_map_grows|dst_map_grows|fresh_unless_duplicate|result_not_nil)$|#call:.*:maps@\d+$|#maps:created_node_mapped`)
+	reFields   = regexp.MustCompile(`#fields:|#loop\d+-(entry|preserve(\.\d+)?):foreach_(elems|length)$`)
+	reTape     = regexp.MustCompile(`#tape:`)
+	reDup      = regexp.MustCompile(`#ensures:duplicates_rejected$|#maps:registered_before_recursion`)
+)
+
+func restoreUnitsOf(p *Program, tier string, helpers bool) ([]*Unit, []UnitError) {
+	var us []*Unit
+	var es []UnitError
+	if helpers {
+		us, es = buildFuncUnits(p, []string{fr("applySpace"), fr("applyDecorations"), fr("applyLiteral"), fr("fileSize")}, nil)
+	}
+	us2, es2 := buildRestoreNode(p, tier, "")
+	return append(us, us2...), append(es, es2...)
+}
+
+func init() {
+	register(&Property{
+		ID:       "C12",
+		Title:    "Restored ASTs carry a coherent position space",
+		Packages: []string{pkgDecorator},
+		Build:    func(p *Program, tier string) ([]*Unit, []UnitError) { return restoreUnitsOf(p, tier, true) },
+		Select:   func(n string) bool { return rePosSpace.MatchString(n) },
+		Siblings: "C03 (fields), C04 (tape), C06 (duplicates), C11 (maps)",
+		Assumptions: []string{
+			"token.FileSet.Base() >= 1 and AddFile at Base() never overlaps an earlier file (assumed contract of go/token)",
+			"Bad nodes have Length >= 0 (data invariant of dst trees; the decorator stores To-From)",
+			"positions handed out are cursor values between base and the final cursor; fileSize() covers the final cursor, every line offset and every comment end",
+		},
+		NotDecided: []string{"that the rank order of positions equals that of a fresh parse of the printed text (go/printer)", "Extras == true: nodes restored after AddFile (known finding F9)"},
+	})
+	register(&Property{
+		ID:       "C11",
+		Title:    "Node maps are exact inverse correspondences between ast and dst",
+		Packages: []string{pkgDecorator},
+		Build:    func(p *Program, tier string) ([]*Unit, []UnitError) { return restoreUnitsOf(p, tier, false) },
+		Select:   func(n string) bool { return reMaps.MatchString(n) || strings.Contains(n, "#fields:") },
+		Siblings: "C12 (position space), C04 (tape), C06 (duplicates)",
+		Assumptions: []string{
+			"the inverse laws are carried per entry: each case registers its own pair and no call changes an entry that existed when it started; the global statement follows by induction over the tree (not machine-checked as one formula)",
+			"allowDuplicate == true (the Extras pass) may overwrite entries; claims are for the main pass",
+		},
+	})
+	register(&Property{
+		ID:       "C03",
+		Title:    "Tokens and comments survive decorate+print for any parseable source",
+		Packages: []string{pkgDecorator},
+		Build:    func(p *Program, tier string) ([]*Unit, []UnitError) { return restoreUnitsOf(p, tier, false) },
+		Select:   func(n string) bool { return reFields.MatchString(n) || strings.HasSuffix(n, "#tape:children_once") },
+		Siblings: "C11 (maps), C12 (position space), C04 (tape)",
+		Assumptions: []string{
+			"partial: decides the slip the statement names (a missing child or token-carrying field in a generated case) on the restore side; the decorate side and exactly-once comment emission are claimed separately when built",
+			"go/printer prints exactly the tokens of the ast it is given (assumed)",
+			"File.Imports and File.Unresolved are cross references and deliberately not restored; FuncType.Func inside a FuncDecl is not mirrored (a declaration always has the keyword)",
+		},
+		NotDecided: []string{"that link() attaches every source comment to some decoration", "token and comment sequence of the printed text (go/printer, go/scanner)"},
+	})
+	register(&Property{
+		ID:       "C04",
+		Title:    "Every decoration is rendered exactly once at its documented attachment point",
+		Packages: []string{pkgDecorator},
+		Build:    func(p *Program, tier string) ([]*Unit, []UnitError) { return restoreUnitsOf(p, tier, false) },
+		Select:   func(n string) bool { return reTape.MatchString(n) },
+		Siblings: "C12 (position space), C11 (maps), C03 (fields)",
+	})
 }
